@@ -31,12 +31,13 @@ CHECKS = {
    cat="proof",
    text="Lean model of hard fusion as an index map (effective charges, decomposition layout by offsets, row-major reshape). Theorems for all dimension profiles / sector "
         "contents: reshape and sector layout are bijections (left and right inverses, injectivity, no gaps), the fused keys obey the selection rule for every partition of "
-        "the legs (from the C19 grouping law), charge/signature of the fused tensor. Tie: element-position correspondence (every element a distinct integer) of real "
+        "the legs (from the C19 grouping law), charge/signature of the fused tensor, and fuse_element_preserved: every element of every stored block is found in the fused tensor at the "
+        "mapped block and position, for every partition of the legs in any order. Tie: element-position correspondence (every element a distinct integer) of real "
         "fuse_legs(mode='hard') vs the model + exact oracles on the real code: unfuse(fuse(x)) incl. pending transposes and depth<=3, hard/meta/mixed; elements and norm "
         "preserved; tensordot/add/sub/vdot/trace over fused legs == over original legs for equal/overlapping/disjoint sector content; incompatible fusions rejected with "
         "YastnError; block() vs dense block matrix.",
-   note=TB + "The tensor-level re-assembly of the per-leg bijections over arbitrary partitions (fuse_element_preserved) is not proved; meta fusion, mask/union logic for "
-        "mismatched histories and block() are tied by oracles only.",
+   note=TB + "Meta fusion, unfuse as a separate operation (it is the inverse index map by construction), mask/union logic for mismatched histories and block() are tied by "
+        "oracles only.",
    technique="Lean 4 proof (index bijections, charge rule) + element-position correspondence + exact oracles", design="§5 C03"),
  "C04": dict(
    cat="proof",
